@@ -73,6 +73,36 @@ BOUNDARIES = [
     # store / aliasing
     "store:fill-view-first-row", "store:fill-view-last-row", "store:view-of-view", "store:clone-of-view",
     "store:fill-after-same-object-cat", "store:whole-slice-is-same-object",
+    # numeric representation (magnitudes around 2**24, 2**31, 2**53, 2**62; every way to pass a fill value)
+    "numeric:big-int-fill-forms", "numeric:big-float-fill-forms", "numeric:big-cat-clone-dense", "numeric:mixed-dtype-cat",
+    # error paths of the constructors and of the dispatch
+    "errpath:from-nontensor", "errpath:from-ndim2", "errpath:from-tuple", "errpath:from-1d-column", "errpath:mixed-class",
+]
+
+# ERROR_PATHS: every raise / assert / special-case branch / dtype cast or promotion of the anchored code that the
+# C06 operations pass through: (site, generator kind that reaches it, oracle key that notices a change).
+ERROR_PATHS = [
+    ("MNT.validate asserts (offset[0], offset[-1]==len(values), len(offset))", "every constructed / returned container; ident:todict",
+     "raises:*:<op>, ill-formed:*:<op> (wf_report re-checks the same facts on every result)"),
+    ("from_tensor_mat: row of another length -> RuntimeError", "from: ragged", "no-raise:mnt:from"),
+    ("from_tensor_mat: element not a Tensor / not 1-D -> RuntimeError", "errpath: from-nontensor, from-ndim2", "from-not-identity:mnt"),
+    ("from_tensor_mat: tensor_mat[0] of [] (IndexError), torch.cat([]) for zero columns", "from: norows, nocols", "from-not-identity:*"),
+    ("from_tensor_list: assert list and len>0 / Tensor / dim()==2 / size(0) equal", "from: norows; errpath: from-tuple, from-1d-column; basecols ragged",
+     "no-raise:met:from, from-not-identity:met"),
+    ("cat: len(xs)==0 -> RuntimeError ; _cat_tensor_data [] -> ValueError ; torch_frame.cat([]) -> IndexError", "reject / boundary reject:empty-list", "no-raise:*:cat0/1"),
+    ("cat: _normalize_dim (negative dims, dim=2/-1 -> IndexError)", "dims -3/-2 in every scenario", "wrong-cells:*:cat* (invalid dims: not claimed)"),
+    ("MNT.cat: num_cols / num_rows mismatch -> RuntimeError", "reject, boundary reject:count-*, reject:odd-part-is-empty-*", "no-raise:mnt:cat0/1"),
+    ("MET.cat: len(xs)==1 -> xs[0] ; num_cols / num_rows / offset mismatch -> RuntimeError", "boundary cat:one-element-*, reject, reject-widths", "no-raise:met:*, store-diff:met"),
+    ("_cat_tensor_data: len==1 -> td_list[0] ; class mismatch -> RuntimeError ; dict key sets -> RuntimeError ; unknown type",
+     "via=tf with 1 part, errpath: mixed-class, dict bad keys", "wrong-cells / no-raise:dict:cat / store-diff"),
+    ("torch.cat promotion in cat (dim 0 of both, MET dim 1) ; MNT dim 1: values=empty(dtype of xs[0]) + index_put (dtype mismatch raises)",
+     "numeric:mixed-dtype-cat (int32+int64, float32+float64, int+float; values exact in the promoted type)", "wrong-cells:*:cat* (a raise is tolerated)"),
+    ("narrow(): start==0 and whole -> self ; length<=0 -> _empty ; _empty dtype=self.dtype", "zero-total, boundary shape:*(sel), store:whole-slice-is-same-object", "wrong-cells, store-diff"),
+    ("fillna_col: is_floating_point branch (isnan vs == -1) ; masked assignment casts the fill to the values dtype",
+     "fill (int and float, 32/64 bit) ; numeric:big-*-fill-forms (python int / integral python float / 0-dim int32 int64 float32 float64 tensors)",
+     "wrong-cells:*:fill (untouched entries bit-identical), store-diff"),
+    ("to_dense: count.max() of an empty tensor raises ; new_full(fill) casts the fill to the values dtype", "dense, boundary dense:* ; numeric fill forms", "wrong-dense:mnt, raises:mnt:to_dense"),
+    ("clone: values.clone(), offset.clone() keep dtype", "clone nodes on 32/64 bit payloads and on big magnitudes", "wrong-cells:*:clone, clone-shares-storage"),
 ]
 
 PROP = "C06"
@@ -113,8 +143,9 @@ ASSUMPTIONS = [
     "padding to containers with at least one cell, so these are not compared",
 ]
 
+BIG_INTS = [2 ** 24 + 1, 2 ** 31 + 3, 2 ** 53 + 1, 2 ** 62 + 1]
 INT_FILLS = [0, 777, -1, -5, 31]
-FLOAT_FILLS = [0.5, 123.5, None, -2.5, 0.0]
+FLOAT_FILLS = [0.5, 123.5, None, -2.5, 0.0, 7.0]
 
 
 # ---------------------------------------------------------------- generation
@@ -220,6 +251,16 @@ def gen_cells(rng, kind, dtype, nr, nc, ws=None):
     if dtype == "int":
         # ordinary negative values next to the missing marker -1 (ids stay unique)
         cells = [[[(-x if (x > 1 and rng.chance(0.08)) else x) for x in c] for c in row] for row in cells]
+    if kind in ("mnt", "met") and rng.chance(0.12):
+        # magnitudes float32 / int32 / float64 cannot hold exactly (the case then uses 64-bit payloads)
+        def big(x):
+            if x is None or x == -1 or not rng.chance(0.3):
+                return x
+            b = rng.pick(BIG_INTS) + 2 * int(abs(x))
+            if dtype == "float":
+                return float(rng.pick([2 ** 24 + 1, 2 ** 30 + 1, 2 ** 40 + 1]) + 2 * int(abs(x))) + 0.5
+            return b if rng.chance(0.5) else -b
+        cells = [[[big(x) for x in c] for c in row] for row in cells]
     return cells
 
 
@@ -599,6 +640,8 @@ def decorate(rng, case):
     if kind in ("mnt", "met", "dense"):
         case["width"] = rng.pick([64, 64, 32])
     if "prog" in case:
+        if case.get("width") == 32 and _has_big(case):
+            case["width"] = 64
         return case
     if kind == "mnt":
         case["base_seq"] = rng.pick(["list", "list", "tuple"])
@@ -632,7 +675,8 @@ def decorate(rng, case):
             node["s"] = deco(node["s"])
             if t == "fill":
                 node["form"] = rng.pick(["pos", "pos", "kw"])
-                node["vform"] = rng.pick(["scalar", "scalar", "tensor"])
+                if "vform" not in node:
+                    node["vform"] = rng.pick(["scalar"] + fill_forms(case["dtype"], node["value"]))
         elif t == "cat":
             node["xs"] = [deco(x) for x in node["xs"]]
             node["seq"] = rng.pick(["list", "list", "tuple"])
@@ -650,8 +694,32 @@ def decorate(rng, case):
 
     case["expr"] = deco(case["expr"])
     if case["final"]["op"] == "dense":
-        case["final"] = dict(case["final"], form=rng.pick(["kw", "pos"]))
+        case["final"] = dict(case["final"], form=rng.pick(["kw", "pos"]),
+                             vform=rng.pick(fill_forms(case["dtype"], case["final"]["fill"], dense=True)))
+    if case.get("width") == 32 and _has_big(case):
+        case["width"] = 64
     return case
+
+
+def _scalars(case):
+    for cells in list(case["bases"]) + [n["cells"] for n in _walk(case["expr"]) if n["t"] in ("base", "rawfrom")] + \
+            [st_["cells"] for st_ in case.get("prog", []) if st_["op"] == "base"]:
+        for row in cells:
+            for c in row:
+                yield from c
+    for n in _walk(case["expr"]):
+        if n["t"] == "fill":
+            yield n["value"]
+    for st_ in case.get("prog", []):
+        if st_["op"] == "fill":
+            yield st_["value"]
+    if case["final"]["op"] == "dense":
+        yield case["final"]["fill"]
+
+
+def _has_big(case):
+    lim = 2 ** 31 - 1 if case["dtype"] == "int" else 2 ** 23
+    return any(x is not None and abs(x) > lim for x in _scalars(case))
 
 
 def _lens_cells(kind, dtype, lens, start=1, missing=()):
@@ -684,7 +752,11 @@ def boundary_cases(rng):
             c["whole"] = whole
         if prog is not None:
             c["prog"] = prog
-        out.append(decorate(rng, c) if prog is None else dict(c, width=rng.pick([64, 32])))
+        if prog is not None:
+            c["width"] = rng.pick([64, 32])
+            if _has_big(c):
+                c["width"] = 64
+        out.append(decorate(rng, c) if prog is None else c)
 
     def sl(a, b):
         return {"t": "slice", "a": a, "b": b, "s": None}
@@ -833,6 +905,55 @@ def boundary_cases(rng):
                     prog=[B, {"op": "cat", "vs": [0, 0], "dim": d, "via": via}, F(1, 0, fills[1]), F(0, 2, fills[3]),
                           {"op": "cat", "vs": [0], "dim": d, "via": "tf"}, F(4, 1, fills[1])])
             add("store:whole-slice-is-same-object", kind, dtype, None, prog=[B, S(0, 0, sl(0, 3)), S(0, 1, sl(None, None)), F(1, 0, fills[1]), F(2, 2, fills[3])])
+            # ---- numeric representation
+            if dtype == "int":
+                bigc = [[[2 ** 24 + 1, -1, -(2 ** 53) - 1], [2 ** 62, -1]],
+                        [[-1, -(2 ** 31) - 3, 2 ** 53 + 1], [-(2 ** 24) - 1, 2 ** 31 + 3]]]
+                tagf, fv = "numeric:big-int-fill-forms", [3, 777]
+            else:
+                bigc = [[[2.0 ** 24 + 1.5, None, -(2.0 ** 40) - 0.5], [2.0 ** 53, None]],
+                        [[None, 2.0 ** 30 + 1.5, 1.5], [-(2.0 ** 24) - 1.5, 0.5]]]
+                tagf, fv = "numeric:big-float-fill-forms", [7.0, 0.0]
+            bigb = {"t": "base", "cells": bigc}
+            for form in fill_forms(dtype, fv[0]):
+                for j in (0, 1):
+                    add(tagf, kind, dtype, dict(fill(bigb, j, fv[j % 2]), vform=form))
+                add(tagf, kind, dtype, None, prog=[{"op": "base", "cells": bigc}, S(0, 0, sl(1, 2)), dict(F(1, 0, fv[0]), vform=form), F(0, 1, fv[1])])
+            for d in (0, 1):
+                n = 2
+                add("numeric:big-cat-clone-dense", kind, dtype,
+                    cat([sel(ref0, d, sl(0, 1)), {"t": "clone", "s": sel(ref0, d, sl(1, n))}], d, via), [bigc], whole=ref0,
+                    final={"op": "dense", "fill": fv[0]} if kind == "mnt" else None)
+            # mixed payload dtypes in one cat: values are exact in the promoted type; a rejection is tolerated
+            small_i = _lens_cells(kind, "int", L([[1, 2], [2, 1]]))
+            small_f = _lens_cells(kind, "float", L([[1, 2], [2, 1]]), start=30)
+            big_i = [[[2 ** 40 + 1 + i + 2 * j for _ in c] for j, c in enumerate(row)] for i, row in enumerate(small_i)]
+            big_f = [[[2.0 ** 30 + 1.5 + i + 2 * j for _ in c] for j, c in enumerate(row)] for i, row in enumerate(small_i)]
+            pairs = [(("int", 32, small_i), ("int", 64, big_i)), (("float", 32, small_f), ("float", 64, big_f)),
+                     (("int", 64, small_i), ("float", 64, small_f))] if dtype == "int" else \
+                    [(("float", 64, big_f), ("float", 32, small_f)), (("int", 64, big_i), ("int", 32, small_i)),
+                     (("float", 32, small_f), ("int", 32, small_i))]
+            for (pa, pb) in pairs:
+                for d in (0, 1):
+                    xs = [{"t": "base", "cells": c_, "dtype": dt_, "width": w_} for (dt_, w_, c_) in (pa, pb)]
+                    add("numeric:mixed-dtype-cat", kind, "float" if "float" in (pa[0], pb[0]) else "int",
+                        cat(xs + xs[:1], d, rng.pick(["static", "tf"])))
+                    out[-1]["raise_tolerated"] = True
+            # ---- error paths of the constructors and of the dispatch
+            okc = _lens_cells(kind, dtype, L([[2, 1], [1, 2]]))
+            if kind == "mnt":
+                add("errpath:from-nontensor", kind, dtype, {"t": "rawfrom", "how": "nontensor", "cells": okc})
+                add("errpath:from-ndim2", kind, dtype, {"t": "rawfrom", "how": "ndim2", "cells": okc})
+            else:
+                add("errpath:from-tuple", kind, dtype, {"t": "rawfrom", "how": "tuple", "cells": okc})
+                add("errpath:from-1d-column", kind, dtype, {"t": "rawfrom", "how": "1d", "cells": okc})
+            other = "met" if kind == "mnt" else "mnt"
+            sq = _lens_cells("met", dtype, [[1, 1], [1, 1]], start=50)
+            for d in (0, 1):
+                add("errpath:mixed-class", kind, dtype,
+                    cat([{"t": "base", "cells": sq}, {"t": "base", "cells": sq, "kind": other}], d, rng.pick(["static", "tf"])))
+                out[-1]["raise_tolerated"] = True
+                out[-1]["mixed_class"] = True
     return out
 
 
@@ -881,6 +1002,8 @@ def ref_eval(node, bases, path, case, rec=None):
         st = ref_base(node["cells"], kind, path)
     elif t == "ref":
         st = ref_base(bases[node["k"]], kind, path)
+    elif t == "rawfrom":
+        raise RefReject(path, "constructor input outside its documented types", free=True)
     elif t == "basecols":
         cols = node["cols"]
         if len(cols) == 0 or any(len(c) != len(cols[0]) for c in cols):
@@ -947,6 +1070,39 @@ class NodeFail(Exception):
         self.path, self.op, self.exc = path, op, exc
 
 
+FILL_FORMS_INT = ["scalar", "tensor", "pyfloat", "tensor_i32", "tensor_i64", "tensor_f32", "tensor_f64"]
+
+
+def fill_forms(dtype, v, dense=False):
+    """the ways the (mathematical) fill value v can be handed to the library without changing its value"""
+    if dense:
+        return ["scalar"] + (["pyfloat"] if dtype == "int" else (["pyint"] if v is not None and v == int(v) else []))
+    if dtype == "int":
+        return [f for f in FILL_FORMS_INT if f != "tensor_i32" or abs(v) < 2 ** 31]
+    if v is None:
+        return ["scalar", "tensor", "tensor_f32", "tensor_f64"]
+    forms = ["scalar", "tensor", "tensor_f64"]
+    if v == int(v):
+        forms += ["pyint", "tensor_i64"]
+    if float(torch.tensor(v, dtype=torch.float32)) == v:
+        forms.append("tensor_f32")
+    return forms
+
+
+def fill_arg(v, form, values_dtype):
+    x = float("nan") if v is None else v
+    if form == "tensor":
+        return torch.tensor(x, dtype=values_dtype)
+    if form == "pyfloat":
+        return float(x)
+    if form == "pyint":
+        return int(x)
+    if form.startswith("tensor_"):
+        td = {"i32": torch.int32, "i64": torch.int64, "f32": torch.float32, "f64": torch.float64}[form[7:]]
+        return torch.tensor(x, dtype=td)
+    return x
+
+
 def torch_dtype(dtype, width=64):
     if dtype == "float":
         return torch.float64 if width == 64 else torch.float32
@@ -977,6 +1133,31 @@ def build_any(kind, dtype, cells, width=64, seq="list"):
     return R.build(kind, dtype, cells)
 
 
+def raw_from(node, dtype, width):
+    """constructor calls on inputs outside their documented types"""
+    td = torch_dtype(dtype, width)
+    cells, how = node["cells"], node["how"]
+
+    def tens(c):
+        return torch.tensor([float("nan") if x is None else x for x in c], dtype=td)
+    if how == "nontensor":                       # one element is a python list
+        mat = [[tens(c) for c in row] for row in cells]
+        mat[-1][-1] = list(cells[-1][-1])
+        return MultiNestedTensor.from_tensor_mat(mat)
+    if how == "ndim2":                           # one element is a 2-D tensor
+        mat = [[tens(c) for c in row] for row in cells]
+        mat[-1][-1] = tens(cells[-1][-1]).reshape(1, -1)
+        return MultiNestedTensor.from_tensor_mat(mat)
+    cols = []
+    for j in range(len(cells[0])):
+        w = len(cells[0][j])
+        cols.append(torch.stack([tens(row[j]) for row in cells]).reshape(len(cells), w))
+    if how == "tuple":
+        return MultiEmbeddingTensor.from_tensor_list(tuple(cols))
+    cols[0] = cols[0].reshape(-1)                # a 1-D column tensor
+    return MultiEmbeddingTensor.from_tensor_list(cols)
+
+
 def read_any(kind, t):
     if kind == "dense":
         return t.shape[0], t.shape[1], [[[R.scal(v)] for v in row] for row in t.tolist()]
@@ -997,7 +1178,7 @@ def op_name(node):
         return f"cat{d}"
     if t == "sel":
         return f"sel{node['dim']}({node['idx']['t']})"
-    if t in ("base", "ref", "basecols"):
+    if t in ("base", "ref", "basecols", "rawfrom"):
         return "from"
     if t == "ident":
         return "ident:" + node["how"]
@@ -1012,7 +1193,10 @@ def impl_eval(node, case, objs, path, rec):
     try:
         width = case.get("width", 64)
         if t == "base":
-            r = build_any(kind, dtype, node["cells"], width, node.get("seq", "list"))
+            r = build_any(node.get("kind", kind), node.get("dtype", dtype), node["cells"], node.get("width", width),
+                          node.get("seq", "list"))
+        elif t == "rawfrom":
+            r = raw_from(node, dtype, width)
         elif t == "ident":
             s0 = impl_eval(node["s"], case, objs, path + ".s", rec)
             how = node["how"]
@@ -1067,9 +1251,7 @@ def impl_eval(node, case, objs, path, rec):
             off_before = r.offset.clone()
             shape_before = (r.num_rows, r.num_cols)
             v = node["value"]
-            fv = float("nan") if v is None else v
-            if node.get("vform") == "tensor":
-                fv = torch.tensor(fv, dtype=r.values.dtype)
+            fv = fill_arg(v, node.get("vform", "scalar"), r.values.dtype)
             if node.get("form") == "kw":
                 ret = r.fillna_col(col_index=node["col"], fill_value=fv)
             else:
@@ -1176,8 +1358,7 @@ def run_prog(case):
                 r = fn(parts, dim=st_["dim"])
             else:
                 r = objs[st_["v"]]
-                v = st_["value"]
-                r.fillna_col(st_["col"], float("nan") if v is None else v)
+                r.fillna_col(st_["col"], fill_arg(st_["value"], st_.get("vform", "scalar"), r.values.dtype))
         except Exception as ex:
             out["prog"] = {"ok": False, "step": k, "op": op, "exc": C.exc_name(ex), "msg": str(ex)[:120]}
             return out
@@ -1247,7 +1428,7 @@ def run(case):
         ro = rec["x"]
         # the library's own equality against a container rebuilt from the cells that were read back
         if expr["t"] in ("cat", "clone", "fill") and "cells" in ro and ro["nr"] >= 1 and ro["nc"] >= 1 \
-                and ro["nr"] == len(ro["cells"]):
+                and ro["nr"] == len(ro["cells"]) and not case.get("raise_tolerated"):
             try:
                 rebuilt = build_any(kind, case["dtype"], ro["cells"], case.get("width", 64))
                 out["allclose_rebuilt"] = bool(type(root).allclose(root, rebuilt, equal_nan=True))
@@ -1263,7 +1444,7 @@ def run(case):
         if case["final"]["op"] == "dense":
             v = case["final"]["fill"]
             try:
-                fv = float("nan") if v is None else v
+                fv = fill_arg(v, case["final"].get("vform", "scalar"), root.values.dtype)
                 dn = root.to_dense(fv) if case["final"].get("form") == "pos" else root.to_dense(fill_value=fv)
                 out["dense"] = {"ok": True, "shape": list(dn.shape),
                                 "data": [[[R.scal(x) for x in c] for c in row] for row in dn.tolist()]}
@@ -1338,6 +1519,8 @@ def oracle(case, obs):
         if ob is None:
             continue
         op = ob["op"]
+        if not ob["ok"] and case.get("raise_tolerated") and op.startswith("cat"):
+            return None        # mixing payload dtypes / container classes: a rejection is fine, wrong cells are not
         if not ob["ok"]:
             return dict(key=f"raises:{kind}:{op}", what=f"{path}: {op} raised {ob.get('exc')} ({ob.get('msg')}) where "
                         "the nested-list computation is defined", expected=ref_rec[path], observed=ob)
@@ -1359,7 +1542,7 @@ def oracle(case, obs):
             # the property does not say what happens; but IF a container comes back from the constructor it
             # must read back as the cells it was built from
             if ob is not None and ob["ok"] and ob["op"] == "from":
-                node_cells = expr["cells"] if expr["t"] == "base" else None
+                node_cells = expr["cells"] if expr["t"] in ("base", "rawfrom") else None
                 if node_cells is not None and (ob.get("cells") != node_cells or ob.get("nr") != len(node_cells)):
                     return dict(key=f"from-not-identity:{kind}", what="constructor accepted cells it does not read back",
                                 expected=node_cells, observed=ob)
@@ -1549,7 +1732,7 @@ def _inline_ref(node, k, cells):
 # ------------------------------------------------------ evidence helpers
 def tree_sig(node):
     t = node["t"]
-    if t in ("base", "ref", "basecols"):
+    if t in ("base", "ref", "basecols", "rawfrom"):
         return t
     if t == "sel":
         return f"sel{node['dim']}:{node['idx']['t']}({tree_sig(node['s'])})"
@@ -1636,6 +1819,9 @@ def stats(cases, obss):
         bump(f"width{c.get('width', 64)}:{c['dtype']}")
         if c["final"]["op"] == "dense":
             bump("to_dense:" + c["final"].get("form", "kw"))
+            bump("to_dense.value:" + c["final"].get("vform", "scalar"))
+        if c["kind"] in ("mnt", "met") and _has_big(c):
+            bump("payload:big-magnitude")
         for n in _walk(c["expr"]):
             if n["t"] == "cat":
                 bump("cat.dim:" + n.get("form", "kw"))
@@ -1727,7 +1913,9 @@ def sanity(cases, obss):
             probs.append(f"store programs never contain {op}")
     for k in ("cat.dim:kw", "cat.dim:pos", "cat.dim:default", "cat.xs:list", "cat.xs:tuple",
               "sel:getitem", "sel:select", "sel:select_neg", "sel:narrow", "sel:index_select",
-              "fill.args:pos", "fill.args:kw", "fill.value:scalar", "fill.value:tensor",
+              "fill.args:pos", "fill.args:kw", "fill.value:scalar", "fill.value:tensor", "fill.value:pyfloat",
+              "fill.value:pyint", "fill.value:tensor_i32", "fill.value:tensor_i64", "fill.value:tensor_f32",
+              "fill.value:tensor_f64", "to_dense.value:pyfloat", "to_dense.value:scalar", "payload:big-magnitude",
               "to_dense:kw", "to_dense:pos", "ident:cpu", "ident:to", "ident:todict",
               "from_tensor_mat:list", "from_tensor_mat:tuple",
               "width64:int", "width32:int", "width64:float", "width32:float"):
@@ -1819,7 +2007,7 @@ def coq_term(case, obs):
         else:
             seen = "None"
         return f"case_dict {na} {parts} {C.cz(expr['dim'])} {seen}"
-    if _has_free_reject(case):
+    if _has_free_reject(case) or (case.get("raise_tolerated") and "failed_at" in obs) or case.get("mixed_class"):
         return None          # the property (and hence the comparison) is silent on these inputs
     fn = "case_mnt" if case["kind"] == "mnt" else "case_met"
     root = obs["nodes"].get("x") if "failed_at" not in obs else None
